@@ -286,6 +286,66 @@ pub fn whole_image_filter_cases(o: &mut Out, rng: &mut Rng, thorough: bool) {
     }
 }
 
+/// images whose filtered size is a little above 32 / 64 / 128 KiB and whose last rows are blank or a single colour (canvas margins): the
+/// decoder's inflater hands the tail of such a stream over only with the end-of-sequence flush - the encoder's own output must still decode
+/// to the bytes given, with every compression setting and filter, through the whole-image call and the stream writer
+pub fn compressible_tail_cases(o: &mut Out, rng: &mut Rng, thorough: bool) {
+    use std::io::Write;
+    let shapes: Vec<(u32, u32, u8, u8)> = vec![(128, 256, 0, 8), (32, 256, 6, 8), (181, 182, 0, 8), (256, 512, 0, 8), (1000, 132, 0, 8), (127, 258, 0, 8), (255, 130, 0, 8), (90, 122, 2, 8)];
+    let mut k = 0u32;
+    for (w, h, color, depth) in shapes {
+        for content in 0..3 {
+            for rep in 0..(if thorough { 6 } else { 2 }) {
+                k += 1;
+                let rb = row_bytes(color, depth, w as u64) as usize;
+                let mut data = vec![0u8; rb * h as usize];
+                // 0: blank, 1: noise with a blank bottom margin, 2: gradient with a single-colour margin
+                let margin = rng.range(2, 40) as usize;
+                if content == 1 { let n = rb * (h as usize - margin); let v = rng.bytes(n); data[..n].copy_from_slice(&v); }
+                if content == 2 { for (i, b) in data.iter_mut().enumerate() { *b = if i / rb < h as usize - margin { ((i / rb) as u8).wrapping_add((i % rb / 16) as u8) } else { 0x33 }; } }
+                let filter = ((k + rep) % 6) as u8;
+                let comp = *rng.pick(&[2u8, 3, 4, 6, 8, 10, 13]);
+                let streamed = (k + rep) % 4 == 3;
+                o.mark(&format!("compressible tail c{}d{} {}x{} content{} f{} comp{} streamed={}", color, depth, w, h, content, filter, comp, streamed));
+                let sink = Sink::new(0, None, false);
+                let r = guarded(|| -> Result<(), String> {
+                    let mut e = png::Encoder::new(sink.clone(), w, h);
+                    e.set_color(color_of(color));
+                    e.set_depth(depth_of(depth));
+                    set_compression(&mut e, comp);
+                    e.set_filter(filter_of(filter));
+                    let mut wr = e.write_header().map_err(|er| format!("{:?}", er))?;
+                    if streamed {
+                        let mut sw = wr.stream_writer().map_err(|er| format!("{:?}", er))?;
+                        sw.write_all(&data).map_err(|er| format!("write: {:?}", er))?;
+                        sw.finish().map_err(|er| format!("{:?}", er))?;
+                    } else {
+                        wr.write_image_data(&data).map_err(|er| format!("image: {:?}", er))?;
+                    }
+                    wr.finish().map_err(|er| format!("{:?}", er))
+                });
+                o.direct_checks += 1;
+                o.count("compressible-tails");
+                match r {
+                    Ok(Ok(())) => {}
+                    Ok(Err(e)) => { o.violation(viol("encoder-refused-a-legal-image", vec![("why", jstr(&e))])); continue; }
+                    Err(m) => { o.violation(viol("encoder-panicked", vec![("why", jstr(&m))])); continue; }
+                }
+                let bytes = sink.0.borrow().accepted.clone();
+                for sched in [vec![0usize], vec![4096], vec![500]] {
+                    let (end, frames) = decode_frames(&bytes, Opts::default(), 0, 0x5A);
+                    let _ = &sched;
+                    if frames.first().map_or(true, |f| f.1 != data) {
+                        o.violation(viol("roundtrip-through-own-decoder-differs", vec![("why", jstr(&format!("{}x{} c{}d{} content {} filter {} compression {} streamed {}: {} frames decoded, end {}", w, h, color, depth, content, filter, comp, streamed, frames.len(), end))),
+                            ("emitted_len", bytes.len().to_string())]));
+                        break;
+                    }
+                }
+            }
+        }
+    }
+}
+
 /// StreamWriter::write call by call (still images): the number of bytes every call accepts and the bytes handed to the compressor
 /// (= the inflated IDAT stream) vs Model/StreamWriterBuf.v sw_trace
 fn stream_trace_cases(o: &mut Out, rng: &mut Rng, thorough: bool) {
@@ -481,6 +541,7 @@ pub fn run(a: &Args) {
     }
     with_info_cases(&mut o, &mut rng, thorough);
     whole_image_filter_cases(&mut o, &mut rng, thorough);
+    compressible_tail_cases(&mut o, &mut rng, thorough);
     filter_switch_cases(&mut o, &mut rng, thorough);
     streamed_animation_cases(&mut o, &mut rng, thorough);
     stream_trace_cases(&mut o, &mut rng, thorough);
